@@ -319,6 +319,7 @@ def coq_shadow_case(c):
 
 # ================================================================ xmm cases
 def gen_xmm(rng, kind):
+    """16 registers of 4 words (bits 0-63, 64-127, 128-191, 192-255) + a clobber"""
     def word(k):
         if k == "zero":
             return 0
@@ -333,19 +334,24 @@ def gen_xmm(rng, kind):
         hi = {"hi-zero": 0, "hi-ones": (1 << 64) - 1}.get(kind, None)
         if hi is None:
             hi = word(rng.choice(["rnd", "rnd", "ones", "zero", "nan"]))
-        before.append((lo, hi))
-    clobber = [(rng.getrandbits(64), rng.getrandbits(64)) for _ in range(16)]
+        if kind == "upper-zero":
+            u = (0, 0)
+        else:
+            u = (word(rng.choice(["rnd", "rnd", "ones", "nan"])), word(rng.choice(["rnd", "ones", "zero"])))
+        before.append((lo, hi) + u)
+    clobber = [tuple(rng.getrandbits(64) if rng.random() < 0.7 else 0 for _ in range(4)) for _ in range(16)]
     return before, clobber
 
 
 def run_xmm(h, before, clobber):
     ws = []
-    for lo, hi in before + clobber:
-        ws += ["%x" % lo, "%x" % hi]
-    rc, out, err = h.run(["XMM " + " ".join(ws)], 2)
+    for r in before + clobber:
+        ws += ["%x" % w for w in r]
+    rc, out, err = h.run(["YMM " + " ".join(ws)], 2)
     k = out[0].partition(" | ")[0].split()
-    vals = [int(x, 16) for x in k[1:33]]
-    return [(vals[2 * i], vals[2 * i + 1]) for i in range(16)]
+    avx = k[1] == "1"
+    vals = [int(x, 16) for x in k[2:66]]
+    return avx, [tuple(vals[4 * i:4 * i + 4]) for i in range(16)]
 
 
 def run_hook_xmm(h, rng):
@@ -356,7 +362,7 @@ def run_hook_xmm(h, rng):
         for lo, hi in pairs:
             out += ["%x" % lo, "%x" % hi]
         return " ".join(out)
-    b = [gen_xmm(rng, "rnd")[0] for _ in range(4)]
+    b = [[r[:2] for r in gen_xmm(rng, "rnd")[0]] for _ in range(4)]
     lines = ["P 1 100", "XE 0 1 " + words(b[0]), "P 2 101", "XE 1 2 " + words(b[1]), "XR 2 " + words(b[2]), "XR 1 " + words(b[3])]
     rc, out, err = h.run(lines, 4)
     res = []
@@ -372,6 +378,10 @@ def coq_pairs(l):
     return "[%s]" % "; ".join("(%d, %d)" % p for p in l)
 
 
+def coq_yregs(l):
+    return "[%s]" % "; ".join("((%d, %d), (%d, %d))" % p for p in l)
+
+
 PRE = """From Coq Require Import ZArith List Bool String.
 Import ListNotations.
 Require Import UV.C01.Model.
@@ -382,8 +392,8 @@ Local Open Scope Z_scope.
 def evaluate_chunk(ctx, scases, xcases, name, hcases=(), tcases=()):
     defs = "Local Open Scope nat_scope.\nDefinition scases : list shadow_case := [\n%s\n].\nLocal Open Scope Z_scope.\n" % ";\n".join(coq_shadow_case(c) for c in scases)
     defs += "Definition xcases : list xmm_case := [\n%s\n].\n" % ";\n".join(
-        "{| xc_before := %s; xc_clobber := %s; xc_after := %s |}" % (coq_pairs(b), coq_pairs(c), coq_pairs(a))
-        for (b, c, a) in xcases)
+        "{| xc_avx := %s; xc_before := %s; xc_clobber := %s; xc_after := %s |}" % (coq.coq_bool(v), coq_yregs(b), coq_yregs(c), coq_yregs(a))
+        for (v, b, c, a) in xcases)
     defs += "Definition hcases : list hook_xmm_case := [\n%s\n].\n" % ";\n".join(
         '{| hx_hook := "%s"%%string; hx_before := %s; hx_after := %s |}' % (hk, coq_pairs(b), coq_pairs(a))
         for (hk, b, a, _) in hcases)
@@ -431,8 +441,8 @@ def evaluate(ctx, scases, xcases, name="cases", chunk=50, hcases=(), tcases=()):
 # ================================================================ objdump monitor
 ALLOWED_SITES = [
     (r"^(mcount_return|dynamic_return|plthook_return|__xray_exit)$", r"^movdqu\s+(%xmm0,0x10\(%rsp\)|0x10\(%rsp\),%xmm0)$"),
-    (r"^mcount_save_arch_context$", r"^movdqu\s+%xmm[0-7],(0x[0-9a-f]+)?\(%rdi\)$"),
-    (r"^mcount_restore_arch_context$", r"^movdqu\s+(0x[0-9a-f]+)?\(%rdi\),%xmm[0-7]$"),
+    (r"^mcount_save_arch_context(_sse|_avx)?(\.\w+)*$", r"^(movdqu\s+%xmm|vmovdqu\s+%ymm)[0-7],(0x[0-9a-f]+)?\(%r\w+\)$"),
+    (r"^mcount_restore_arch_context(_sse|_avx)?(\.\w+)*$", r"^(movdqu\s+(0x[0-9a-f]+)?\(%r\w+\),%xmm|vmovdqu\s+(0x[0-9a-f]+)?\(%r\w+\),%ymm)[0-7]$"),
     (r"^mcount_(get_register_arg|arch_get_arg|get_struct_arg)(\.\w+)*$", r"^movs[sd]\s+%xmm[0-7],[^%]*\(%r\w+\)$"),
     (r"^mcount_arch_get_retval(\.\w+)*$", r"^(movsd\s+%xmm0,[^%]*\(%r\w+\)|fstpt\s+[^%]*\(%r\w+\)|fldt\s+[^%]*\(%r\w+\))$"),
 ]
@@ -792,11 +802,11 @@ def run(ctx):
     # ---- (b) xmm pair
     xcases = []
     for i in range(ctx.n(24, 200)):
-        kind = ["rnd", "hi-zero", "hi-ones", "rnd"][i % 4]
+        kind = ["rnd", "hi-zero", "hi-ones", "upper-zero", "rnd"][i % 5]
         before, clobber = gen_xmm(ctx.rng, kind)
-        after = run_xmm(h, before, clobber)
-        xcases.append((before, clobber, after))
-        ctx.case(key=("xmm", tuple(before)), nontrivial=kind != "hi-zero", tags=["xmm:" + kind],
+        avx, after = run_xmm(h, before, clobber)
+        xcases.append((avx, before, clobber, after))
+        ctx.case(key=("xmm", tuple(before)), nontrivial=kind != "hi-zero", tags=["xmm:" + kind, "xmm:avx=%d" % avx],
                  sample={"xmm": {"before0": ["%x" % w for w in before[0]], "after0": ["%x" % w for w in after[0]]}}
                  if i == 0 else None)
     hcases = []
@@ -864,9 +874,9 @@ def verdict(ctx, scases, xcases, res, hcases=(), tcases=()):
                       {"kind": "shadow", "tree": json_tree(c["tree"]), "env": c["env"],
                        "observed": [(u, idx, ws) for (u, idx, ws) in c["obs"]][:200]}, True)
     for i in res["x_violations"][:3]:
-        b, cl, a = xcases[i]
-        ctx.violation("C01 violated: mcount_save_arch_context/mcount_restore_arch_context do not give back xmm0-7 "
-                      "(argument registers of the traced function)",
+        v, b, cl, a = xcases[i]
+        ctx.violation("C01 violated: mcount_save_arch_context/mcount_restore_arch_context do not give back %s "
+                      "(argument/return registers of the traced function)" % ("all 256 bits of ymm0-7" if v else "xmm0-7"),
                       {"kind": "xmm", "before": [list(map(hex, p)) for p in b], "clobber": [list(map(hex, p)) for p in cl],
                        "after": [list(map(hex, p)) for p in a]}, True)
     if res["s_mismatch"] and not res["s_violations"]:
@@ -877,7 +887,7 @@ def verdict(ctx, scases, xcases, res, hcases=(), tcases=()):
                        "tree": json_tree(c["tree"]), "env": c["env"],
                        "observed": [(u, idx, ws) for (u, idx, ws) in c["obs"]][:200]}, False)
     if res["x_mismatch"] and not res["x_violations"]:
-        b, cl, a = xcases[res["x_mismatch"][0]]
+        v, b, cl, a = xcases[res["x_mismatch"][0]]
         ctx.violation("arch-context model (generated from mcount-support.c) and the real pair disagree",
                       {"kind": "xmm", "before": [list(map(hex, p)) for p in b], "clobber": [list(map(hex, p)) for p in cl],
                        "after": [list(map(hex, p)) for p in a]}, False)
@@ -904,11 +914,11 @@ def replay(ctx, obj):
         h = Harness(ctx, objdir)
         before = [tuple(int(x, 16) for x in p) for p in obj["before"]]
         clobber = [tuple(int(x, 16) for x in p) for p in obj["clobber"]]
-        after = run_xmm(h, before, clobber)
+        avx, after = run_xmm(h, before, clobber)
         ctx.case(key="replay", sample={"after": [list(map(hex, p)) for p in after]})
-        res = evaluate(ctx, [], [(before, clobber, after)], name="replay")
+        res = evaluate(ctx, [], [(avx, before, clobber, after)], name="replay")
         ctx.log("replayed xmm case:", res)
-        verdict(ctx, [], [(before, clobber, after)], res)
+        verdict(ctx, [], [(avx, before, clobber, after)], res)
     elif kind == "stop":
         import random
         h = Harness(ctx, objdir)
